@@ -1,5 +1,6 @@
 SPECIFICATION Spec
 CONSTANTS
-  AllocBound = 4194304
+  AllocFactor = 64
+  AllocSlack = 262144
 INVARIANTS WellFormed Dump
 CHECK_DEADLOCK FALSE
